@@ -124,7 +124,7 @@ func apiFetcher(r resource) snippet.Fetcher {
 		for _, it := range r.Items {
 			d.Items = append(d.Items, &snippet.DictionaryItem{Key: it.Key.String(), Value: it.Value.String()})
 		}
-		f.dicts = append(f.dicts, d)
+		f.dicts = append(f.dicts, d, &snippet.Dictionary{Name: "zz_decoy", Items: []*snippet.DictionaryItem{{Key: "dk", Value: "dv"}}})
 	case "acl":
 		a := &snippet.Acl{Name: r.Name.String()}
 		for _, e := range r.Entries {
@@ -135,7 +135,8 @@ func apiFetcher(r resource) snippet.Fetcher {
 			}
 			a.Entries = append(a.Entries, ae)
 		}
-		f.acls = append(f.acls, a)
+		m := int64(32)
+		f.acls = append(f.acls, a, &snippet.Acl{Name: "zz_decoy", Entries: []*snippet.AclEntry{{Ip: "192.0.2.1", Subnet: &m}}})
 	case "backend":
 		b := &snippet.Backend{Name: r.Name.String()}
 		if len(r.Address) > 0 {
@@ -169,7 +170,9 @@ func terraformFetcher(r resource) (snippet.Fetcher, bool, error) {
 			keys[it.Key.String()] = true
 			items[it.Key.String()] = it.Value.String()
 		}
-		svc["dictionary"] = []map[string]any{{"name": r.Name.String()}}
+		svc["dictionary"] = []map[string]any{{"name": r.Name.String()}, {"name": "zz_decoy"}}
+		extra = append(extra, map[string]any{"provider_name": prov, "type": "fastly_service_dictionary_items", "index": "zz_decoy",
+			"values": map[string]any{"service_id": "svc1", "items": map[string]string{"dk": "dv"}}})
 		extra = append(extra, map[string]any{"provider_name": prov, "type": "fastly_service_dictionary_items", "index": r.Name.String(),
 			"values": map[string]any{"service_id": "svc1", "items": items}})
 	case "acl":
@@ -181,9 +184,11 @@ func terraformFetcher(r resource) (snippet.Fetcher, bool, error) {
 			}
 			es = append(es, map[string]any{"comment": e.Comment.String(), "ip": e.IP.String(), "negated": e.Negated, "subnet": sn})
 		}
-		svc["acl"] = []map[string]any{{"name": r.Name.String()}}
+		svc["acl"] = []map[string]any{{"name": r.Name.String()}, {"name": "zz_decoy"}}
 		extra = append(extra, map[string]any{"provider_name": prov, "type": "fastly_service_acl_entries", "index": r.Name.String(),
 			"values": map[string]any{"service_id": "svc1", "entry": es}})
+		extra = append(extra, map[string]any{"provider_name": prov, "type": "fastly_service_acl_entries", "index": "zz_decoy",
+			"values": map[string]any{"service_id": "svc1", "entry": []map[string]any{{"ip": "192.0.2.1", "subnet": "32", "negated": false, "comment": ""}}}})
 	case "backend":
 		b := map[string]any{"name": r.Name.String()}
 		if len(r.Address) > 0 {
@@ -464,6 +469,11 @@ func cmdReplay(args []string) int {
 						got = got[i:]
 					}
 				}
+				for _, dk := range []string{"\ntable zz_decoy", "\nacl zz_decoy"} { // the decoy resource follows the generated one
+					if i := strings.Index(got, dk); i >= 0 {
+						got = got[:i]
+					}
+				}
 				if route == "api" && got != want.String() {
 					r.Drift = append(r.Drift, map[string]any{"obs": "rendered-text", "expected": want.String(), "got": got})
 				}
@@ -489,9 +499,12 @@ func cmdReplay(args []string) int {
 func compare(res resource, o obsT, route string, mm func(obs, field string, exp, got any)) {
 	switch res.Kind {
 	case "dict":
-		if len(o.Tables) != 1 {
-			mm("faithful", "declaration", 1, len(o.Tables))
+		if len(o.Tables) != 2 {
+			mm("faithful", "declaration", 2, len(o.Tables))
 			return
+		}
+		if d := o.Tables[1]; d.Name != "zz_decoy" || len(d.Items) != 1 || d.Items[0] != [2]string{"dk", "dv"} {
+			mm("faithful", "other-dictionary", "zz_decoy {dk: dv}", fmt.Sprint(d))
 		}
 		t := o.Tables[0]
 		if t.Name != res.Name.String() {
@@ -520,9 +533,12 @@ func compare(res resource, o obsT, route string, mm func(obs, field string, exp,
 			}
 		}
 	case "acl":
-		if len(o.Acls) != 1 {
-			mm("faithful", "declaration", 1, len(o.Acls))
+		if len(o.Acls) != 2 {
+			mm("faithful", "declaration", 2, len(o.Acls))
 			return
+		}
+		if d := o.Acls[1]; d.Name != "zz_decoy" || len(d.Entries) != 1 || d.Entries[0] != (obsEntry{IP: "192.0.2.1", Subnet: 32}) {
+			mm("faithful", "other-acl", "zz_decoy {192.0.2.1/32}", fmt.Sprint(d))
 		}
 		a := o.Acls[0]
 		if a.Name != res.Name.String() {
